@@ -108,12 +108,25 @@ Theorem C14_replace_refuted_link_fault :
 Proof. exact replace_reforge_fault_refuted. Qed.
 Print Assumptions C14_replace_refuted_link_fault.
 
-(* a workflow without IO maps: Workflow.replace_child adds a no-op rebuild to the above *)
-Theorem C14_workflow_replace_atomic_partial : forall W st comp old new st' e ph,
+(* Workflow.replace_child (tree at a33e34e) IS Composite.replace_child, IO maps or not: what the latter raises
+   the former raises at the same graph; a successful replacement is left exactly as it is by the IO rebuild
+   (every exposed key names one channel, as a bidict map guarantees) -- so the map-exposed connected channels
+   are replaced like all others.  This replaces the former C14_workflow_map_refuted (endless swap-back
+   recursion / silent disconnect), repaired in /repo. *)
+Theorem C14_workflow_replace_is_composite : forall W st wm comp old new st1,
+  (forall e ph, replace_core W st comp old new = (st1, RErr e ph) ->
+                replace_wf W st wm comp old new = (st1, RErr e ph)) /\
+  (replace_core W st comp old new = (st1, ROk) -> unique_keys W st1 wm ->
+   replace_wf W st wm comp old new = (st1, ROk)).
+Proof. intros. split; [intros; now apply replace_wf_err|intros; now apply replace_wf_ok]. Qed.
+Print Assumptions C14_workflow_replace_is_composite.
+
+(* hence all-or-nothing like the composite's, for every map *)
+Theorem C14_workflow_replace_atomic_partial : forall W st wm comp old new st' e ph,
   Sym (cn st) -> NoDupS (cn st) -> InRange W (cn st) -> uniq_labels W old -> no_self W (cn st) old ->
-  unlinked W st comp old ->
-  replace_wf W st [] comp old new = (st', RErr e ph) -> same_graph st st'.
-Proof. intros. eapply replace_core_unlinked_atomic; eauto using replace_wf_no_map_err. Qed.
+  unlinked W st comp old -> ph <> PhRebuild ->
+  replace_wf W st wm comp old new = (st', RErr e ph) -> same_graph st st'.
+Proof. intros. eapply replace_core_unlinked_atomic; eauto using replace_wf_err_inv. Qed.
 Print Assumptions C14_workflow_replace_atomic_partial.
 
 (* deriving the execution flow from the data graph, partial: when it is refused (cyclic data, an upstream
@@ -139,14 +152,6 @@ Theorem C14_wire_refuted_fault :
   snd r = WErr Injected (WWire 1) /\ ~ same_graph s_wire_fault (fst r).
 Proof. exact wire_fault_refuted. Qed.
 Print Assumptions C14_wire_refuted_fault.
-
-(* Workflow.replace_child with an IO map that exposes a connected channel *)
-Theorem C14_workflow_map_refuted :
-  snd (replace_wf w_four s_wf_map [(2, 0, true, 13)] 0 3 4) = RErr RecErr PhRebuild /\
-  (let r := replace_wf w_four s_wf_map [(2, 0, true, 0)] 0 3 4 in
-   snd r = ROk /\ cn s_wf_map 7 = [2] /\ cn (fst r) 7 = []).
-Proof. exact wf_map_refuted. Qed.
-Print Assumptions C14_workflow_map_refuted.
 
 (* ===== (B) a successful replacement inherits the old node's place =================================== *)
 
@@ -230,3 +235,12 @@ Example C14_hyps_hold :
   wf_b w_neighbour (cn s_neighbour) = true /\ snd r = RErr ConnCopyErr PhCopy /\
   cn (fst r) 2 = cn s_neighbour 2 /\ cn (fst r) 2 = [8; 7].
 Proof. exact replace_atomic_instance. Qed.
+
+(* ... and a workflow whose input map exposes the connected n2.x (under another name, or under its own): the
+   replacement of n3 succeeds, n2.x keeps its connection, the children are [n1; n2; n4]. *)
+Example C14_workflow_map_holds :
+  (let r := replace_wf w_four s_wf_map [(2, 0, true, 13)] 0 3 4 in
+   snd r = ROk /\ cn (fst r) 7 = [2] /\ kids (fst r) = [1; 2; 4]) /\
+  (let r := replace_wf w_four s_wf_map [(2, 0, true, 0)] 0 3 4 in
+   snd r = ROk /\ cn (fst r) 7 = [2] /\ kids (fst r) = [1; 2; 4]).
+Proof. exact wf_map_instance. Qed.
